@@ -269,7 +269,7 @@ CHECKS["C11"] = {
     "min_nontrivial_frac": 0.08,
 }
 CHECKS["C02"]["jobs"] += [job("h_bwd-" + d, 800, 1, 12000, 2, fuzz_secs=300, fuzz_procs=1) for d in ["interval", "sdbm", "bool_int"]] + \
-                         [job("h_inter-" + d, 800, 1, 12000, 2) for d in ["interval", "sdbm", "bu_sdbm_interval", "bu_interval_interval"]]
+                         [job("h_inter-interval", 3000, 4, 20000, 4)] + [job("h_inter-" + d, 800, 1, 12000, 2) for d in ["sdbm", "bu_sdbm_interval", "bu_interval_interval"]]
 CHECKS["C02"]["rule"] += ("; the same comparison for the checker run on intra_forward_backward_analyzer (h_bwd: backward on/off, 0-5 refinement iterations, refined invariants "
                           "on/off: with refined invariants UNREACHABLE is only held to the SAFE standard), for the checker interleaved with the top-down inter-procedural analyzer "
                           "(an assertion is claimed safe only if its verdict list is non-empty and every entry is safe/unreachable) and for inter_checker on the bottom-up analyzer")
